@@ -23,7 +23,44 @@ def _outcome(rng):
     return "never"
 
 
+def gen_expired_refresh_fails(rng, tier):
+    """an entry expires, the refresh of that key fails (or is cancelled) so it is never re-inserted, the cache
+    refills with entries that are used more often, then one more key arrives: size bound and victim choice"""
+    policy = rng.choice(["lfu", "lfu", "lru", "fifo"])
+    mx = rng.choice([1, 2, 2, 3])
+    ttl = rng.choice([5, 10])
+    shared = rng.choice([0, 0, 1])
+    header = "cache max=%d policy=%s ttl=%d shared=%d" % (mx, policy, ttl, shared)
+    ops = []
+    c = [0]
+
+    def call(key, out="ok", lat=0):
+        c[0] += 1
+        svc = "" if shared == 0 else " svc=%d" % rng.randint(0, 1)
+        ops.append("arrive %d key=%d%s inner=%d:%s" % (c[0], key, svc, lat, out))
+        ops.append("poll %d" % c[0])
+        return c[0]
+    call(1)                                   # key 1 cached (count 1)
+    if rng.random() < 0.5:
+        call(1)                               # a hit (count 2)
+    ops.append("adv %d" % (ttl + rng.choice([1, 1, 5])))
+    x = call(1, out=rng.choice(["err1", "err2", "never", "panic"]), lat=rng.choice([0, 0, 3]))   # expired; the refresh fails
+    if rng.random() < 0.4:
+        ops.append("drop %d" % x)
+    for k in range(2, 2 + mx):                # refill with more popular entries
+        call(k)
+        for _ in range(rng.randint(1, 3)):
+            call(k)
+    call(2 + mx)                              # one more key: a victim must go
+    for k in range(2, 3 + mx):                # who is still there?
+        call(k)
+    ops.append("settle")
+    return {"header": header, "ops": ops}
+
+
 def gen(rng, tier):
+    if rng.random() < 0.08:
+        return gen_expired_refresh_fails(rng, tier)
     policy = rng.choice(["lru", "lfu", "fifo"])
     mx = rng.choice([1, 1, 2, 2, 2, 3, 3, 4])
     if rng.random() < 0.02:
